@@ -42,6 +42,17 @@ CLAIMED = {
         "appends only under the entry's absence, and that the template path updates the root media type. Manifests of opened documents are not decided.",
         "Trusted: zipfile entry order; Document.set_part/Container.set_part themselves are the raw pass-through API (frozen exception).",
         "DESIGN.md §4 C04"),
+    "C05": (
+        "affine evaluation of the run-length encoder over N = len(run); encoder/decoder table extraction for text:s, text:tab, text:line-break (regexes tabulated with re._parser); shape check of the text accessor; CFG must-pass-through on append_plain_text",
+        "Partial, structural, and deliberately narrow. Decides that every place where Paragraph._sub_merge_spaces encodes a run of N blanks emits pieces that decode to "
+        "exactly N blanks (literal blanks + Spacer count, as affine forms in N, with the only-blanks test and count >= 1 in force); that the text:s codec agrees with itself "
+        "(count stored from 2 up, default 1 when absent, decoded as that many blanks); that the splitter regex, the encoder arms and the decoders of text:tab and "
+        "text:line-break name the same characters; that inner_text is own text + each child's str() and tail in order; and that append_plain_text applies expand → merge → "
+        "replace once each on the whole content on every normal path. Does NOT decide the position-dependent case analysis (which runs are first, last or inner, for all "
+        "strings and all ways of splitting them into append calls): that is a property of the string algorithm over all inputs, for which no sound static argument is in "
+        "reach here (DESIGN.md §5) — most of the property's quantifier is therefore out of this check's reach.",
+        "Trusted: ODF 1.2 §6.1.2 white-space processing; re.split with a capturing group; lxml text/tail model.",
+        "DESIGN.md §4 C05"),
     "C06": (
         "ast table extraction: isinstance-chain lattice order; encoder/decoder attribute+codec table agreement; sibling dispatcher agreement",
         "Partial, structural. Decides for every isinstance dispatch chain in the package that no arm is shadowed by a superclass arm "
@@ -206,10 +217,7 @@ EXTRA = {
     "C20": "Also decides that the numbering counters advance only for headings that pass the level filter, in TOC.fill and in the sibling script (R20c). Round 3: the entry text excludes the heading's tail (R20c). Round 4: R12k is evaluated here too (TOC.outline_level reads this TOC's own source).",
 }
 
-NOT_APPLICABLE = {
-    "C05": "String algorithm over all inputs and all splittings (three regexes, position-dependent cases): its truth is not in the shape of "
-           "the code; deciding it statically needs a string/automata abstract domain that is out of reach here (DESIGN.md §5).",
-}
+NOT_APPLICABLE = {}
 NOT_YET = "check not built yet in this round (rules specified in DESIGN.md §4, build order §7); not claimed until the check exists"
 
 
